@@ -266,6 +266,10 @@ class World:
                 e = self._lookup(local, op[1])
                 if e is not None:
                     await self._await(who, e)
+            elif k == 'step':  # ('step', bus): call the public EventBus.step() of that bus from here (a handler pumping a worker bus by hand)
+                self.rec('step-begin', who, op[1])
+                await self.buses[op[1]].step()
+                self.rec('step-end', who, op[1])
             elif k == 'cancel_loop':  # ('cancel_loop', bus): an outsider (a supervisor cancelling all tasks, a test fixture) cancels the bus's background task WITHOUT calling stop()
                 t = getattr(self.buses[op[1]], '_runloop_task', None)
                 self.rec('cancel-loop', who, op[1], t is not None and not t.done())
